@@ -244,7 +244,15 @@ func c11Scenarios(thorough bool) []c11Scenario {
 func C11Race(args []string) int {
 	reps := 30
 	n := 0
-	for _, sc := range c11Scenarios(false) {
+	scs := c11Scenarios(false)
+	// both threads modify and persist at the same time (concurrent marshaling and flushing)
+	for ci, cfg := range c11Configs() {
+		nk := len(cfg.Keys)
+		for _, capt := range []string{"load", "clone"} {
+			scs = append(scs, c11Scenario{Cfg: ci, Base: []int{0, 1, nk - 1}, Capture: capt, Seqs: [][]tOp{{{"ins", 2, 1}, {Kind: "persist"}, {"del", 0, 0}, {Kind: "persist"}}, {{"ins", nk - 2, 1}, {Kind: "persist"}, {"ins", 2, 0}, {Kind: "persist"}}}})
+		}
+	}
+	for _, sc := range scs {
 		if len(sc.Seqs) != 2 {
 			continue
 		}
